@@ -286,3 +286,9 @@ CHECKS["C09"]["rule"] += (" Hist runs (real, unscheduled thread exit): single-th
     "then allocates, frees the foreign blocks, force-collects and takes a census. Oracle: the C01 model; a block left behind in another sub-process is never reported by a heap walk or the "
     "abandoned walk of the main sub-process and is reported exactly once by mi_abandoned_visit_blocks of its own sub-process; non-trivial there = a helper thread exited with live blocks and "
     "the main thread freed one of them or visited abandoned blocks.")
+
+VARIANTS["opts-fuzz"] = {"custom": True}
+CHECKS["C20"]["runs"].append({"variant": "opts-fuzz"})
+CHECKS["C20"]["rule"] += (" Additionally a libFuzzer target (clang -fsanitize=fuzzer,address,bounds) decodes coverage-guided bytes into the same checks (environment values for all options, format seeds "
+    "and buffer sizes, strlcpy/strlcat triples, JSON buffer sizes, option API values) with the semantic oracle inside the target; its executions are added to evaluations and the inputs that added "
+    "coverage to the corpus are counted as distinct non-trivial cases; a crash artifact is the replay file.")
